@@ -398,6 +398,13 @@ class TheCheck(Check):
         for f in sorted(os.listdir(corpus)) if os.path.isdir(corpus) else []:
             sts.append(Stream("corpus:" + f, [l.strip() for l in open(os.path.join(corpus, f)) if l.strip()], history=True))
 
+        # 0. the very first file operation of a process: load() / save() right after start (the harness' op stream
+        #    is not on descriptor 0, so the library's first open() returns 0, a valid descriptor)
+        for first in (["load %s 3d 1" % hexs(b"a=1\nb=%32\n"), "walk 0", "save 3d 1", "rt 3d 0 0 0 0", "size"],
+                      ["save 3d 1", "load %s 3d 0" % hexs(b"x=y\n"), "walk 0"],
+                      [kop("putstr", b"k", hexs(b"v")), "rt 3d 1 0 0 1", "load %s 3a 1" % hexs(b"p:q\n"), "walk 0", "end"]):
+            sts.append(Stream("first-file-op:" + first[0].split()[0] + str(len(first)), first, history=True,
+                              note="load/save as the first open() of the process"))
         K = [b"a", b"A", b"b"]
         # 1. exhaustive sequences over {put k (2 values), remove k} for every option vector
         maxlen = 4 if self.tier == "quick" else 5
